@@ -943,6 +943,16 @@ impl Session {
     }
 }
 
+impl Drop for Session {
+    /// A session dropped while a transaction is open rolls that transaction back,
+    /// so its uncommitted changes never stay behind.
+    fn drop(&mut self) {
+        if self.current_tx.is_some() {
+            let _ = self.rollback();
+        }
+    }
+}
+
 #[cfg(test)]
 mod tests {
     use crate::database::GrafeoDB;
